@@ -5,6 +5,8 @@ import FFVerif.Model.Proto
 import FFVerif.Model.Periodic
 import FFVerif.Model.Superop
 import FFVerif.Model.Analytic
+import FFVerif.Model.Diag
+import FFVerif.Model.Tensor
 
 namespace FFVerif.Model
 open FFVerif FFVerif.Proto
@@ -38,6 +40,11 @@ def handleMore (toks : List String) : String :=
       else if fam == "PDD" then Analytic.PDD z n else if fam == "CPMG" then Analytic.CPMG z n
       else if fam == "CDD" then Analytic.CDD z n else Analytic.UDD (K := CF) z n
     "ok " ++ showFloats #[v]
-  | _ => "err bad-op"
+  | toks =>
+    -- components that live in their own model files
+    let handlers : List (List String → Option String) := [handleDiag, Tensor.handleTensor]
+    match handlers.findSome? (fun h => h toks) with
+    | some r => r
+    | none => "err bad-op"
 
 end FFVerif.Model
